@@ -183,7 +183,7 @@ func annotate(ex execResult) traceOut {
 		case opSub:
 			subs = append(subs, st)
 			closed = append(closed, false)
-			out.add(fmt.Sprintf("XSub %d %s %d %s %s", st.Cap, fcodeCoq(st), tmoTicks[st.Tmo], cw.B(st.OnF), cw.B(st.OnT)),
+			out.add(fmt.Sprintf("XSub %d %s %s %s %s", st.Cap, fcodeCoq(st), cw.Z(tmoTicks[st.Tmo]), cw.B(st.OnF), cw.B(st.OnT)),
 				fmt.Sprintf("sub cap=%d filt=%s tmo=%dticks onF=%v onT=%v", st.Cap, fcodeCoq(st), tmoTicks[st.Tmo], st.OnF, st.OnT))
 		case opPub:
 			p := pubsSeen
@@ -202,9 +202,14 @@ func annotate(ex execResult) traceOut {
 			out.add(fmt.Sprintf("XPub %d %s", st.M, cw.ZL(vis)), fmt.Sprintf("pub m=%d visited=%v", st.M, vis))
 			for _, s := range vis {
 				if s < len(subs) && accepts(subs[s], st.M) && findPair(p, s) == nil {
-					q := &pairSt{p: p, s: s, dl: cur + tmoTicks[subs[s].Tmo], everRecv: everRecv(s, p)}
+					q := &pairSt{p: p, s: s, dl: cur + max(0, tmoTicks[subs[s].Tmo]), everRecv: everRecv(s, p)}
 					pairs = append(pairs, q)
 					out.add(fmt.Sprintf("XEnter %d %d", p, s), fmt.Sprintf("enter p%d s%d", p, s))
+					// a timeout <= 0 is due at once; without OnTimeout it is unobservable: by elimination, now
+					if !subs[s].OnT && q.dl <= cur && !q.everRecv {
+						q.state = 2
+						out.add(fmt.Sprintf("XTimeout %d %d", q.p, q.s), fmt.Sprintf("timeout* p%d s%d", q.p, q.s))
+					}
 				}
 			}
 		case opRecv:
